@@ -563,6 +563,34 @@ type callRec struct {
 	untouched(d, s, p, q, "")
 }
 `)
+	add("C_multi_result", "call", "functions and methods with several results yield their first one, whatever the others are", `func C_multi_result() {
+	d, s, p, q := newD()
+	dc := inject(d, p)
+	x := vnd.Int64("x")
+	dc.Add("x", x)
+	fail := vnd.Bool("fail")
+	dc.Add("lookup", func(a int64) (int64, error) {
+		if fail {
+			return a + 1, errors.New("not found")
+		}
+		return a + 1, nil
+	})
+	dc.Add("three", func(a int64) (int64, bool, error) { return a * 2, false, errors.New("third") })
+	dc.Add("pair", func(a int64) (string, int64) { return "first", a })
+	dc.Add("mo", &multiObj{})
+	err, res := exec(dc, " a = lookup(x)\n b = three(x)\n c = pair(x)\n e = mo.Find(x)\n if c == \"first\" {\n  return a + b + e\n }\n return 0")
+	vnd.Reach("executed")
+	vnd.Assert(err == nil, "a non-nil trailing result does not fail the call")
+	got, ok := res["r"].(int64)
+	vnd.Assert(ok, "result type")
+	vnd.Assert(got == (x+1)+2*x+(x+3), "every call yields its first result")
+	untouched(d, s, p, q, "")
+}
+
+type multiObj struct{}
+
+func (m *multiObj) Find(a int64) (int64, error) { return a + 3, errors.New("method error") }
+`)
 	// every numeric parameter type x every source class
 	for _, pt := range []string{"int", "int8", "int16", "int32", "int64", "uint", "uint8", "uint16", "uint32", "uint64", "float32", "float64"} {
 		for _, src := range sources[:3] {
@@ -618,7 +646,7 @@ type callRec struct {
 	untouched(d, s, p, q, "pi")
 }
 `)
-	head := "package " + pkg + "\n\nimport (\n\t\"github.com/bilibili/gengine/builder\"\n\t\"github.com/bilibili/gengine/context\"\n\t\"github.com/bilibili/gengine/engine\"\n\t\"github.com/bilibili/gengine/zz_verif/vnd\"\n)\n" + c03Lib
+	head := "package " + pkg + "\n\nimport (\n\t\"errors\"\n\n\t\"github.com/bilibili/gengine/builder\"\n\t\"github.com/bilibili/gengine/context\"\n\t\"github.com/bilibili/gengine/engine\"\n\t\"github.com/bilibili/gengine/zz_verif/vnd\"\n)\n" + c03Lib
 	fam.Files[repoDir+"/zz_verif/"+pkg+"/h.go"] = head + b.String()
 	fam.TestFile = repoDir + "/zz_verif/" + pkg + "/zz_replay_test.go"
 	fam.TestSrc = testFile(pkg, fam.Instances)
